@@ -533,7 +533,7 @@ func renameFiles(h *history, f func(i int) string) {
 // C08: delivered transactions are stable and private
 
 func runC08(c *Ctx) {
-	c.R.Rule = "histories with view-typed columns (strings, blobs, bits, sets) and zero timestamps x packet sizes around the driver's buffer sizes (4096, 256K) x pacing (later packets before / after the handler returns) x handler {reads, scribbles}; distinct = (column-type set class, packet-size class, pacing, scribble) with >= 2 deliveries"
+	c.R.Rule = "histories with view-typed columns (strings, blobs, bits, sets), rendered JSON documents and zero timestamps x packet sizes around the driver's buffer sizes (4096, 256K) x pacing (later packets before / after the handler returns) x handler {reads, scribbles}; distinct = (column-type set class, packet-size class, pacing, scribble) with >= 2 deliveries"
 	r := c.Rng
 	provenanceCorrespondence(c)
 	base := libraryGoroutines()
@@ -637,6 +637,7 @@ func genAliasHistory(r *vh.Rng, cfg Cfg, big int) *history {
 		mk(sym("char", 255), "char", func(r *vh.Rng) vh.Val { return randBytesVal(r, r.Intn(20)) })
 		mk(sym("geo", 2), "geometry", func(r *vh.Rng) vh.Val { return randBytesVal(r, 25) })
 		mk(sym("long"), "long", func(r *vh.Rng) vh.Val { return sym("int", int64(r.Intn(1000))) })
+		mk(sym("json", 4), "json", func(r *vh.Rng) vh.Val { return jsonCellVal(r, 4) }) // rendered into a fresh buffer: must not be shared or recycled
 	}
 	// regenerate the rows with the new columns
 	for i := range h.events {
